@@ -206,6 +206,21 @@ def direct_mutators(ft, key):
     return out
 
 
+_esc_cache = {}
+
+
+def has_escaped(t):
+    k = id(t)
+    hit = _esc_cache.get(k)
+    if hit is not None and hit[0] is t:
+        return hit[1]
+    r = any(x[0] == "escaped" for x in walk(t))
+    if len(_esc_cache) > 2000000:
+        _esc_cache.clear()
+    _esc_cache[k] = (t, r)
+    return r
+
+
 class Oblig:
     __slots__ = ("key", "kind", "fn", "where", "status", "detail", "ctx", "float_dep", "input_dep")
 
@@ -223,18 +238,228 @@ class Engine:
         self.obligations = {}     # key -> Oblig (worst status over contexts)
         self.assumed_total = set()
         self.once_cache = {}
+        self._disj = {}
+        self.roots = set()
+        self.split_pref = {}
+        self.splits = {}
         self.once_inits = set()
         self.constant_ctx = set()
         self.depth = 0
 
     # -------- contexts
-    def ctx(self, path, args):
-        key = (path, args)
+    def ctx(self, path, args, choice=None):
+        key = (path, args) if choice is None else (path, args, choice)
         c = self.ctxs.get(key)
         if c is None:
-            c = FnCtx(self, path, args)
+            c = FnCtx(self, path, args, choice)
             self.ctxs[key] = c
         return c
+
+    def solved_ctx(self, path, args, choice=None):
+        c = self.ctx(path, args, choice)
+        if not c.solved:
+            if choice is None:
+                self.summary(path, args)
+            else:
+                self.depth += 1
+                try:
+                    c.solve()
+                finally:
+                    self.depth -= 1
+        return c
+
+    # -------- partitioned return values: the result of `callee` split by the value of one small-range field
+    PARTITION_RETURNS = {"a5::core::serialization::deserialize": "resolution"}
+
+    def disjuncts(self, callee, args):
+        key = (callee, args)
+        if key in self._disj:
+            return self._disj[key]
+        self._disj[key] = None
+        field = self.PARTITION_RETURNS.get(callee)
+        if field is None or callee not in self.facts.fns:
+            return None
+        c = self.solved_ctx(callee, args)
+        ft = c.ft
+        from .query import returns_under
+        terms = set()
+        for leaf in returns_under(ft, {}):
+            for x in walk(leaf):
+                if x[0] == "agg" and x[1] == "adt" and field in x[4]:
+                    t = x[3][x[4].index(field)]
+                    if not is_const(t):
+                        terms.add(t)
+        if len({strip_site(t) for t in terms}) != 1:
+            return None
+        T = next(iter(terms))
+        rng = c.av(T, None)
+        if rng[0] != "i" or rng[2] - rng[1] > 40 or rng[2] == rng[1]:
+            return None
+        atom = c.atom(T, None)
+        out = []
+        saved = (dict(c.phi), list(c.seen_phis), c.ret)
+        for v in range(rng[1], rng[2] + 1):
+            c.extra_facts = [({atom: 1}, -v), ({atom: -1}, v)]
+            c.phi, c.seen_phis, c.final = {}, [], False
+            self.depth += 1
+            try:
+                r = c.solve()
+            finally:
+                self.depth -= 1
+            out.append((v, r))
+        c.extra_facts = []
+        c.phi, c.seen_phis, c.ret = saved
+        c.reset_caches()
+        c.final = True
+        self._disj[key] = out
+        return out
+
+    def split_candidates(self, args):
+        """(description, list of argument tuples) for each small-range integer component of the arguments"""
+        out = []
+
+        def comps(av, path):
+            if av[0] == "i" and 2 <= av[2] - av[1] + 1 <= 40:
+                yield path, av
+            elif av[0] == "r" and len(path) < 3:
+                yield from comps(av[1], path + ("*",))
+            elif av[0] == "s" and len(path) < 3:
+                for n, v in av[1]:
+                    yield from comps(v, path + (n,))
+
+        def setc(av, path, val):
+            if not path:
+                return I(val, val)
+            if path[0] == "*":
+                return ("r", setc(av[1], path[1:], val))
+            return ("s", tuple((n, setc(v, path[1:], val) if n == path[0] else v) for n, v in av[1]))
+        found = []
+        for i, a in enumerate(args):
+            for path, av in comps(a, ()):
+                found.append((av[2] - av[1], i, path, av))
+        found.sort(key=lambda x: x[0])
+        for _w, i, path, av in found[:3]:
+            vals = sorted(ivals(av)) if ivals(av) is not None else list(range(av[1], av[2] + 1))
+            subs = [args[:i] + (setc(args[i], path, v),) + args[i + 1:] for v in vals]
+            out.append(("arg%d%s" % (i + 1, "".join("." + p for p in path)), subs))
+        return out
+
+    def carve_candidates(self, path, args):
+        """for wide integer parameters that the function compares with constants: split into the region below, every
+        value between the smallest and largest such constant (if few), and the region above"""
+        c = self.solved_ctx(path, args)
+        ft = c.ft
+        consts = {}
+        from .query import resolve_promoted
+
+        def note(p, v):
+            consts.setdefault(p, set()).add(v)
+        for b in sorted(ft.cfg.reach):
+            t = ft.blocks[b]["term"]
+            if t["k"] != "switch":
+                continue
+            d = ft.switch_term(b)
+            if d[0] == "un" and d[1] == "Not":
+                d = d[2]
+            if d[0] == "bin" and d[1] in CMP:
+                for x, y in ((d[2], d[3]), (d[3], d[2])):
+                    if x[0] == "param":
+                        yv = c.av(y, None)
+                        if yv[0] == "i" and yv[1] == yv[2]:
+                            note(x[1], yv[1])
+            if d[0] == "call" and isinstance(d[1], str) and d[1].endswith("::contains") and "ops::Range" in d[1] and len(d[2]) == 2:
+                rng, x = d[2]
+                for _ in range(6):
+                    while rng[0] in ("ref", "deref"):
+                        rng = rng[2] if rng[0] == "ref" else rng[1]
+                    if rng[0] == "promoted":
+                        rng = resolve_promoted(self.facts, rng)
+                    else:
+                        break
+                while x[0] in ("ref", "deref"):
+                    x = x[2] if x[0] == "ref" else x[1]
+                ends = None
+                if rng[0] == "agg" and rng[2].startswith("std::ops::Range::"):
+                    ends = rng[3]
+                elif rng[0] == "call" and isinstance(rng[1], str) and rng[1].endswith("RangeInclusive::new"):
+                    ends = rng[2]
+                if x[0] == "param" and ends:
+                    for e in ends:
+                        ev = c.av(e, None)
+                        if ev[0] == "i" and ev[1] == ev[2]:
+                            note(x[1], ev[1])
+        out = []
+        for p, ks in sorted(consts.items()):
+            a = args[p - 1] if p - 1 < len(args) else None
+            if a is None or a[0] != "i" or a[2] - a[1] <= 40:
+                continue
+            lo, hi = min(ks) - 1, max(ks) + 1
+            if hi - lo > 40:
+                continue
+            subs = []
+            if a[1] < lo:
+                subs.append(args[:p - 1] + (I(a[1], lo - 1),) + args[p:])
+            for v in range(max(lo, a[1]), min(hi, a[2]) + 1):
+                subs.append(args[:p - 1] + (I(v, v),) + args[p:])
+            if a[2] > hi:
+                subs.append(args[:p - 1] + (I(hi + 1, a[2]),) + args[p:])
+            out.append(("arg%d carved at %s" % (p, sorted(ks)), subs))
+        return out
+
+    def variants(self, path, args):
+        """contexts whose obligations stand for (path, args): the plain context, or a case split that discharges more"""
+        base = self.solved_ctx(path, args)
+        if self.precision >= 1 and (path, args) in self.roots:
+            cc = self.carve_candidates(path, args)
+            if cc:
+                desc, sublist = cc[0]
+                return [self.solved_ctx(path, a) for a in sublist], desc
+        if self.precision >= 1:
+            # eager: a function that decodes an ID exactly once is analysed per decoded resolution
+            for callee in self.PARTITION_RETURNS:
+                sites = [c for c in base.ft.calls() if c.callee == callee]
+                if len(sites) == 1:
+                    cargs = tuple(base.av(a, sites[0].block) for a in sites[0].args)
+                    D = self.disjuncts(callee, cargs)
+                    if D:
+                        subs = [self.solved_ctx(path, args, (callee, cargs, j)) for j in range(len(D))]
+                        return subs, "result of %s by %s" % (callee.split("::")[-1], self.PARTITION_RETURNS[callee])
+        obs = base.check_obligations()
+        failed = {o.key for o in obs if o.status == "failed"}
+        if not failed or self.precision < 1:
+            return [base], None
+        best = ([base], failed, None)
+        # 1. split on the partitioned result of a callee that is called exactly once
+        for callee in self.PARTITION_RETURNS:
+            sites = [c for c in base.ft.calls() if c.callee == callee]
+            if len(sites) != 1:
+                continue
+            cargs = tuple(base.av(a, sites[0].block) for a in sites[0].args)
+            D = self.disjuncts(callee, cargs)
+            if not D:
+                continue
+            subs = [self.solved_ctx(path, args, (callee, cargs, j)) for j in range(len(D))]
+            f2 = set()
+            for sc in subs:
+                f2 |= {o.key for o in sc.check_obligations() if o.status == "failed"}
+            if len(f2) < len(best[1]):
+                best = (subs, f2, "result of %s by %s" % (callee.split("::")[-1], self.PARTITION_RETURNS[callee]))
+        # 2. split on a small-range integer argument component
+        if best[1]:
+            cands = self.split_candidates(args)
+            pref = self.split_pref.get(path)
+            cands.sort(key=lambda x: 0 if x[0] == pref else 1)
+            for desc, sublist in cands:
+                subs = [self.solved_ctx(path, a) for a in sublist]
+                f2 = set()
+                for sc in subs:
+                    f2 |= {o.key for o in sc.check_obligations() if o.status == "failed"}
+                if len(f2) < len(best[1]):
+                    best = (subs, f2, desc)
+                    self.split_pref[path] = desc
+                    if not f2:
+                        break
+        return best[0], best[2]
 
     def default_args(self, path):
         f = self.facts.fns[path]
@@ -268,10 +493,12 @@ class Engine:
 
     def analyze(self, entries):
         """entries: list of (path, args or None)"""
+        self.roots = set()
         for path, args in entries:
             if args is None:
                 args = self.default_args(path)
             self.summary(path, args)
+            self.roots.add((path, args))
             self.mark_live(path, args)
         i = 0
         done_inits = set()
@@ -279,10 +506,14 @@ class Engine:
             while i < len(self.live):
                 path, args = self.live[i]
                 i += 1
-                c = self.ctx(path, args)
-                if not c.solved:
-                    self.summary(path, args)
-                c.check_obligations()
+                ctxs, how = self.variants(path, args)
+                if how:
+                    self.splits[(path, tuple(show(a) for a in args))] = (how, len(ctxs))
+                for c in ctxs:
+                    for ob in c.check_obligations():
+                        self.record(ob)
+                    for (p2, a2) in sorted(c.pending, key=lambda k: (k[0], repr(k[1]))):
+                        self.mark_live(p2, a2)
             # initialisers of once-cells touched so far: argument-free, hence input-independent contexts
             new = [p for p in self.once_inits if p not in done_inits]
             if not new:
@@ -363,19 +594,37 @@ class Engine:
         self._finv[name] = out
         return out
 
+    def is_constant_ctx(self, key, _seen=None):
+        """a context reached only from once-cell initialisers (no API argument can influence it): every obligation in it
+        either always fails or never fails, so any single run of the crate settles it - reported separately, not claimed"""
+        if key in self.constant_ctx:
+            return True
+        _seen = _seen or set()
+        if key in _seen:
+            return True
+        _seen.add(key)
+        callers = self.callers.get(key, set())
+        if not callers:
+            return False
+        return all(self.is_constant_ctx((cp, ca), _seen) for cp, ca, _s in callers)
+
     def record(self, ob):
         old = self.obligations.get(ob.key)
-        rank = {"discharged": 0, "lifted": 0, "assumed": 1, "failed": 2}
+        rank = {"discharged": 0, "lifted": 0, "constant": 1, "assumed": 1, "failed": 2}
         if old is None or rank[ob.status] > rank[old.status]:
             self.obligations[ob.key] = ob
 
 
 class FnCtx:
-    def __init__(self, eng, path, args):
+    def __init__(self, eng, path, args, choice=None):
         self.eng = eng
         self.facts = eng.facts
         self.path = path
         self.args = args
+        self.choice = choice        # (callee path, callee args, disjunct index) or None
+        self.extra_facts = []
+        self.pending = set()
+        self.obs = None
         self.ft = fn_terms(eng.facts, path)
         self.fn = self.ft.fn
         self.phi = {}
@@ -385,6 +634,7 @@ class FnCtx:
         self.solved = False
         self.ret = None
         self._facts_memo = {}
+        self._fact_atoms = {}
         self._len_events = None
         self.checked = False
 
@@ -418,6 +668,7 @@ class FnCtx:
             for t, b in tg:
                 self.av(t, b)
             changed = False
+            nseen = len(self.seen_phis)
             for phi in list(self.seen_phis):
                 old = self.phi.get(phi, BOT)
                 new = self.phi_join(phi)
@@ -428,6 +679,8 @@ class FnCtx:
                 if new != old:
                     self.phi[phi] = new
                     changed = True
+            if len(self.seen_phis) > nseen:
+                changed = True   # phis discovered in this round have not been evaluated yet
             if not changed or rounds >= maxr:
                 break
         # narrowing
@@ -452,10 +705,14 @@ class FnCtx:
 
     def reset_caches(self):
         self.memo = {}
+        self._live_blocks = None
+        self._fact_atoms = {}
+        self._possum = None
         self._facts_memo = {}
         self._vsum = {}
         if hasattr(self, "_lemmas"):
             del self._lemmas
+        self._after_loop = {}
 
     def phi_join(self, phi):
         out = BOT
@@ -470,10 +727,10 @@ class FnCtx:
     # ------------------------------------------------------------------ liveness of blocks under known branch values
     def live_blocks(self):
         """blocks reachable from the entry along edges that are feasible for the abstract value of each switch"""
-        lb = self.memo.get("live_blocks")
+        lb = self.__dict__.get("_live_blocks")
         if lb is not None:
             return lb
-        self.memo["live_blocks"] = self.ft.cfg.reach  # while computing: everything
+        self._live_blocks = self.ft.cfg.reach  # while computing: everything
         seen = {0}
         st = [0]
         while st:
@@ -484,7 +741,7 @@ class FnCtx:
                 if self.switch_edge_feasible(p, s_):
                     seen.add(s_)
                     st.append(s_)
-        self.memo["live_blocks"] = seen
+        self._live_blocks = seen
         return seen
 
     def switch_edge_feasible(self, p, b):
@@ -556,7 +813,7 @@ class FnCtx:
         if key in self._facts_memo:
             return self._facts_memo[key]
         self._facts_memo[key] = []
-        out = []
+        out = list(self.extra_facts)
         for d, vals, other, excl, sb in self.ft.conditions(b):
             out += self.cond_facts(d, vals, other, excl, sb)
         if edge is not None:
@@ -780,10 +1037,19 @@ class FnCtx:
 
     def atom(self, t, at):
         """canonical atom for a non-linear integer term"""
+        ac = self.__dict__.setdefault("_atom_cache", {})
+        k = (id(t), at if (t[0] == "call" and not (len(t) > 3 and t[3])) else None)
+        hit = ac.get(k)
+        if hit is not None and hit[0] is t:
+            return hit[1]
         la = self.len_atom_of_call(t, at)
         if la is not None:
-            return la
-        return strip_site(t) if not any(x[0] == "escaped" for x in walk(t)) else t
+            r = la
+        else:
+            r = strip_site(t) if not has_escaped(t) else t
+        ac[k] = (t, r)
+        self.__dict__.setdefault("atom_orig", {}).setdefault(r, t)
+        return r
 
     # ------------------------------------------------------------------ length atoms
     def len_events(self):
@@ -911,17 +1177,17 @@ class FnCtx:
 
     # ------------------------------------------------------------------ abstract evaluation
     def av(self, t, at=None, edge=None):
-        key = (t, at, edge)
-        r = self.memo.get(key)
-        if r is not None:
-            return r
-        self.memo[key] = TOP  # cycle guard
+        key = (id(t), at, edge)
+        hit = self.memo.get(key)
+        if hit is not None and hit[0] is t:
+            return hit[1]
+        self.memo[key] = (t, TOP)  # cycle guard
         r = self._av(t, at, edge)
         if r[0] == "i":
             r = self.refine_int(t, r, at, edge)
         elif at is not None and r[0] in ("s", "r") and (self.facts_at(at, edge) or self.ne_facts_at(at, edge)):
             r = self.refine_struct(t, r, at, edge)
-        self.memo[key] = r
+        self.memo[key] = (t, r)
         return r
 
     def refine_struct(self, t, r, at, edge):
@@ -945,11 +1211,27 @@ class FnCtx:
 
     def refine_int(self, t, r, at, edge):
         if at is None:
-            return r
+            if not self.extra_facts:
+                return r
+            at = 0
         fs = self.facts_at(at, edge)
-        if not fs and not self.ne_facts_at(at, edge):
+        nfs = self.ne_facts_at(at, edge)
+        if not fs and not nfs:
             return r
-        a = self.atom(t, at) if t[0] not in ("const",) else None
+        if t[0] == "const":
+            return r
+        fk = (at, edge)
+        fa = self._fact_atoms.get(fk)
+        if fa is None:
+            fa = set()
+            for co, _k in fs:
+                fa |= set(co)
+            for na, _v in nfs:
+                fa.add(na)
+            self._fact_atoms[fk] = fa
+        a = self.atom(t, at)
+        if a not in fa and t[0] not in ("bin", "cast"):
+            return r
         if a is None:
             return r
         lo, hi = r[1], r[2]
@@ -1038,19 +1320,20 @@ class FnCtx:
         return None
 
     def _av_nofacts(self, a):
-        key = (a, "nofacts")
-        r = self.memo.get(key)
-        if r is None:
-            self.memo[key] = TOP
-            r = self._av(a, None, None)
-            self.memo[key] = r
+        key = (id(a), "nofacts")
+        hit = self.memo.get(key)
+        if hit is not None and hit[0] is a:
+            return hit[1]
+        self.memo[key] = (a, TOP)
+        r = self._av(a, None, None)
+        self.memo[key] = (a, r)
         return r
 
     def top_for(self, t):
         return top_of_type(self.ft.tyof(t), self.facts)
 
     def is_live(self):
-        return (self.path, self.args) in self.eng.live_set
+        return getattr(self, "checking", False)
 
     def depth_ok(self):
         return self.eng.depth < 30
@@ -1086,7 +1369,12 @@ class FnCtx:
             if t not in self.phi:
                 self.phi[t] = BOT
                 self.seen_phis.append(t)
-            return self.phi[t]
+            v = self.phi[t]
+            if self.final and v[0] == "i":
+                b_ = self.positional_sums().get(t)
+                if b_ is not None:
+                    v = meet(v, I(0, b_))
+            return v
         if tag == "bin":
             return self.av_bin(t, at, edge)
         if tag == "un":
@@ -1138,6 +1426,12 @@ class FnCtx:
             inner = t[1]
             if inner[0] == "bin" and self.exact_bin(inner, at):
                 return I(0, 0)
+            if self.final and inner[0] == "bin":
+                for k_, b_ in self.positional_sums().items():
+                    if k_[0] == "bin" and k_[2] == inner[2] and k_[3] == inner[3]:
+                        tr_ = int_range(self.ft.tyof(inner[2]) or "")
+                        if tr_ and b_ <= tr_[1]:
+                            return I(0, 0)
             if inner[0] == "bin" and at is not None:
                 # relational: both type bounds by linear facts
                 tr = int_range(self.ft.tyof(inner[2]) or "")
@@ -1332,6 +1626,12 @@ class FnCtx:
             bits = INT_BITS.get(ty, (64, False))[0]
             if b[1] >= 0 and b[2] < bits and a[1] >= 0:
                 r = I(a[1] << b[1], a[2] << b[2])
+                tr_ = int_range(ty)
+                if tr_ and r[0] == "i" and r[2] > tr_[1] and at is not None:
+                    # power-of-two bound: x < (1 << m) is known and the shift k satisfies k + m <= C  =>  x << k < 2^C
+                    c_ = self.pow2_bound(t[2], t[3], at, edge)
+                    if c_ is not None and c_ < bits:
+                        r = I(0, (1 << c_) - 1)
             else:
                 r = I(*int_range(ty)) if int_range(ty) else TOP
         elif base == "Shr":
@@ -1365,10 +1665,103 @@ class FnCtx:
             return BOT
         if setres is not None and r[0] == "i":
             r = I(r[1], r[2], setres)
+        if self.final and base == "Add" and r[0] == "i":
+            for k_, b_ in self.positional_sums().items():
+                if k_[0] == "bin" and k_[2] == t[2] and k_[3] == t[3]:
+                    r = meet(r, I(0, b_))
         if op.endswith("WithOverflow"):
             # tuple (wrapped result, overflow flag): only reached through mk_field normally
             return S({"0": fit(r, ty), "1": I(0, 1)})
         return fit(r, ty) if r[0] == "i" else r
+
+    def positional_sums(self):
+        """Recognise `acc = acc + d * (1 << (w * i))` accumulated over `for (i, d) in v.iter().enumerate()` (any order,
+        each index once): with d <= 2^w - 1 and len(v) <= L the partial sums never exceed 2^(w*L) - 1.
+        Returns {term: bound} for the loop-carried accumulator phi and for the addition itself."""
+        ps = self.__dict__.get("_possum")
+        if ps is not None:
+            return ps
+        self._possum = {}
+        out = {}
+        ft = self.ft
+        from .query import loops_of
+        if not hasattr(self, "_loops"):
+            self._loops = loops_of(ft)
+        for lp in self._loops:
+            if lp.item is None or not lp.next:
+                continue
+            ad, base = self.iter_chain(lp.item[2])
+            if ad is None or "enumerate" not in ad or any(isinstance(a, tuple) for a in ad):
+                continue
+            bav = self.av(base, None)
+            bav = bav[1] if bav[0] == "r" else bav
+            if bav[0] != "v" or bav[1][0] != "i" or bav[2][0] != "i" or bav[2][1] < 0:
+                continue
+            L, dmax = bav[1][2], bav[2][2]
+            idx = strip_site(("field", lp.item, 0))
+            for phi in list(self.seen_phis):
+                if phi[2] != lp.head or (self.ft.tyof(phi) or "") not in INT_BITS:
+                    continue
+                ops = ft.phi_operands(phi)
+                init = [v for p_, v in ops.items() if p_ not in lp.body]
+                back = [v for p_, v in ops.items() if p_ in lp.body]
+                if len(init) != 1 or len(back) != 1 or const_int(init[0]) != 0:
+                    continue
+                t = back[0]
+                if not (t[0] == "bin" and t[1] in ("Add", "AddWithOverflow") and t[2] == phi):
+                    continue
+                m = t[3]
+                if not (m[0] == "bin" and m[1] in ("Mul", "MulWithOverflow")):
+                    continue
+                d, pw = m[2], m[3]
+                if not (pw[0] == "bin" and pw[1] == "Shl"):
+                    d, pw = pw, d
+                if not (pw[0] == "bin" and pw[1] == "Shl" and const_int(pw[2]) == 1):
+                    continue
+                lk = self.linear(pw[3], lp.some_succ)
+                if lk is None or lk[1] != 0 or len(lk[0]) != 1 or idx not in lk[0]:
+                    continue
+                w = lk[0][idx]
+                dv = self.av(d, lp.some_succ)
+                if w <= 0 or dv[0] != "i" or dv[1] < 0 or dv[2] > (1 << w) - 1 or dv[2] > dmax and False:
+                    continue
+                if w * L > 200:
+                    continue
+                bound = (1 << (w * L)) - 1
+                out[phi] = bound
+                out[t] = bound
+        self._possum = out
+        return out
+
+    def pow2_bound(self, x, k, at, edge):
+        """smallest C such that the facts give x < 2^m for some m with k + m <= C (as linear forms), else None"""
+        ax = self.atom(x, at)
+        lk = self.linear(k, at)
+        if lk is None:
+            return None
+        best = None
+        for co, c0 in self.facts_at(at, edge):
+            if co.get(ax) != 1 or len(co) != 2 or c0 < 1:
+                continue
+            other = [a for a in co if a != ax]
+            p = other[0]
+            if co[p] != -1 or not (isinstance(p, tuple) and p and p[0] == "bin" and p[1] in ("Shl", "ShlUnchecked") and const_int(p[2]) == 1):
+                continue
+            po = self.__dict__.get("atom_orig", {}).get(p, p)
+            lm = self.linear(po[3], at)
+            if lm is None:
+                continue
+            # k + m as a linear form must be a constant
+            tot = dict(lk[0])
+            for a_, c_ in lm[0].items():
+                tot[a_] = tot.get(a_, 0) + c_
+            tot = {a_: c_ for a_, c_ in tot.items() if c_}
+            if tot:
+                continue
+            C = lk[1] + lm[1]
+            if C >= 0 and (best is None or C < best):
+                best = C
+        return best
 
     def av_cast(self, t, at, edge):
         kind, to = t[1], t[3]
@@ -1645,8 +2038,16 @@ class FnCtx:
     def len_lemmas(self, at):
         """facts about length atoms: exact lengths of vectors whose construction is visible"""
         if not hasattr(self, "_lemmas"):
+            self._after_loop = {}
             self._lemmas = self._compute_len_lemmas()
-        return self._lemmas
+        out = list(self._lemmas)
+        for atom1, (lp, src) in getattr(self, "_after_loop", {}).items():
+            # every way out of the filling loop other than exhaustion leaves the function, so a block outside the loop
+            # that the loop head dominates is reached only after one push per element
+            if lp.done_succ is not None and at not in lp.body and self.ft.cfg.dominates(lp.done_succ, at) \
+                    and len([p_ for p_ in self.ft.cfg.pred[lp.done_succ] if p_ in self.ft.cfg.reach]) == 1:
+                out.append(({src: 1, atom1: -1}, 0))
+        return out
 
     def _compute_len_lemmas(self):
         out = []
@@ -1697,9 +2098,6 @@ class FnCtx:
                 lp = lps[0]
                 if not every_iteration(ft, lp, c.block):
                     continue
-                exits = [(x, y) for x, y in lp.exits if x != lp.item_switch and ft.blocks[y]["term"]["k"] != "unreachable"]
-                if any(ft.cfg.can_reach(y, lp.head) or not self._exit_leaves(y, cb) for x, y in exits):
-                    continue
                 ad, base = self.iter_chain(lp.item[2])
                 if ad is None or any(isinstance(a, tuple) for a in ad):
                     continue
@@ -1714,7 +2112,6 @@ class FnCtx:
                 atom1 = ("L", key, ver)
                 out.append(({atom1: 1, src: -1}, 0))     # len <= len(src) at any time
                 # after the loop has finished the lengths are equal: stated for uses that the loop exit dominates
-                self._after_loop = getattr(self, "_after_loop", {})
                 self._after_loop[atom1] = (lp, src)
         return out
 
@@ -1867,7 +2264,10 @@ class FnCtx:
                 self.eng.summary(c2.callee, cargs, caller=(self.path, self.args, c2.block))
         except RecursionError:
             pass
-        for (path, args), cc in list(self.eng.ctxs.items()):
+        for key_, cc in list(self.eng.ctxs.items()):
+            if len(key_) != 2:
+                continue
+            path, args = key_
             if path != c2.callee or not cc.solved:
                 continue
             if (self.path, self.args, c2.block) not in self.eng.callers.get((path, args), ()):
@@ -1916,10 +2316,15 @@ class FnCtx:
         return call_model(self, t, at, edge)
 
     # ------------------------------------------------------------------ obligations
+    def note_callee(self, path, args):
+        self.pending.add((path, args))
+
     def check_obligations(self):
-        if self.checked:
-            return
-        self.checked = True
+        """obligations of this context (list of Oblig); callee contexts seen on the way are collected in self.pending"""
+        if self.obs is not None:
+            return self.obs
+        self.obs = []
+        self.checking = True
         # evaluate every live call in the final state so that callees become live contexts
         for b in sorted(self.ft.cfg.reach):
             t = self.ft.blocks[b]["term"]
@@ -1927,3 +2332,5 @@ class FnCtx:
                 self.av(self.ft.call_term(t, b), b)
         from .obligations import check_fn
         check_fn(self)
+        self.checking = False
+        return self.obs
